@@ -8,19 +8,20 @@ import (
 // Security family (C11, C16, C17).
 
 var secSchemeDefs = map[string]M{
-	"bearer":  {"type": "http", "scheme": "bearer"},
-	"keyhdr":  {"type": "apiKey", "in": "header", "name": "X-Api-Key"},
-	"keyhdr2": {"type": "apiKey", "in": "header", "name": "X-Second-Key"},
-	"keyqry":  {"type": "apiKey", "in": "query", "name": "api_key"},
-	"basic":   {"type": "http", "scheme": "basic"},
-	"cookie":  {"type": "apiKey", "in": "cookie", "name": "sid"},
-	"oauth":   {"type": "oauth2", "flows": M{"implicit": M{"authorizationUrl": "https://example.com/auth", "scopes": M{"read": "r"}}}},
-	"oidc":    {"type": "openIdConnect", "openIdConnectUrl": "https://example.com/.well-known/openid-configuration"},
+	"bearer":    {"type": "http", "scheme": "bearer"},
+	"bearercap": {"type": "http", "scheme": "Bearer"}, // the spelling of the IANA registry
+	"keyhdr":    {"type": "apiKey", "in": "header", "name": "X-Api-Key"},
+	"keyhdr2":   {"type": "apiKey", "in": "header", "name": "X-Second-Key"},
+	"keyqry":    {"type": "apiKey", "in": "query", "name": "api_key"},
+	"basic":     {"type": "http", "scheme": "basic"},
+	"cookie":    {"type": "apiKey", "in": "cookie", "name": "sid"},
+	"oauth":     {"type": "oauth2", "flows": M{"implicit": M{"authorizationUrl": "https://example.com/auth", "scopes": M{"read": "r"}}}},
+	"oidc":      {"type": "openIdConnect", "openIdConnectUrl": "https://example.com/.well-known/openid-configuration"},
 }
 
 func secSupported(s string) bool {
 	switch s {
-	case "bearer", "keyhdr", "keyhdr2", "keyqry":
+	case "bearer", "bearercap", "keyhdr", "keyhdr2", "keyqry":
 		return true
 	}
 	return false
@@ -55,7 +56,7 @@ func SecurityCases(seed int64, thorough bool) []Case {
 	rng := rand.New(rand.NewSource(seed*131 + 7))
 	var out []Case
 	pairs := [][2]string{{"bearer", "keyhdr"}, {"keyhdr", "keyqry"}, {"bearer", "keyqry"}, {"keyhdr", "keyhdr2"}, {"keyqry", "bearer"},
-		{"bearer", "basic"}, {"keyhdr", "oauth"}, {"cookie", "keyhdr"}, {"oidc", "bearer"}, {"keyqry", "keyqry"}, {"bearer", "bearer"}}
+		{"bearer", "basic"}, {"keyhdr", "oauth"}, {"cookie", "keyhdr"}, {"oidc", "bearer"}, {"keyqry", "keyqry"}, {"bearer", "bearer"}, {"bearercap", "keyhdr"}, {"keyqry", "bearercap"}}
 	layouts := []string{"same-path", "two-paths", "var-path"}
 	id := 0
 	for pi, pr := range pairs {
